@@ -316,7 +316,8 @@ def run_batch(scheds, seed, workers, workroot):
     bf.write_text(json.dumps({"schedules": scheds, "workers": workers, "workroot": str(workroot)}))
     env = dict(os.environ)
     env["PYTHONHASHSEED"] = str(seed)
-    env["PYTHONPATH"] = f"{VERIF}:{VERIF}/vendor"
+    nr = os.environ.get("NAUNET_REPO")
+    env["PYTHONPATH"] = (f"{nr}:" if nr and nr != "/repo" else "") + f"{VERIF}:{VERIF}/vendor"
     env["TQDM_DISABLE"] = "1"
     p = subprocess.run([sys.executable, "-m", "mc.props.c17", str(bf), str(of)], env=env, capture_output=True, text=True, timeout=3600, cwd=str(VERIF))
     if p.returncode != 0:
